@@ -64,11 +64,11 @@ def resOf : R Val → Except Err Val
   | .ok (v, _) => .ok v
   | .error (e, _) => .error e
 
-/-- how the pump ends, given the walker's trace `out`, final byte count `pos` and result -/
-def pumpOutcome (x : List Byte) (out : List (Nat × Event)) (pos : Nat) : Except Err Val → Outcome
+/-- how the pump ends, given the walker's final byte count `pos` and result -/
+def pumpOutcome (x : List Byte) (pos : Nat) : Except Err Val → Outcome
   | .ok v =>
-    if stoppedOnSend out pos then .crash "RuntimeError" "processor finished on a byte send (PEP 479)"
-    else if pos < x.length then .superfluous (x.drop pos) v
+    -- the processor finished (on a flush or on a byte send): anything left in the source is superfluous
+    if pos < x.length then .superfluous (x.drop pos) v
     else .done v
   | .error .depleted => .depleted
   | .error (.crash cls site) => .crash cls site
@@ -79,7 +79,7 @@ def pumpOutcome (x : List Byte) (out : List (Nat × Event)) (pos : Nat) : Except
 
 def pump (isStream : Bool) (x : List Byte) (r : R Val) : Run :=
   let pe := pumpEvents isStream x.length (stOf r).out [] none
-  ⟨pe.1, if pe.2.2 then .silent else pumpOutcome x (stOf r).out (stOf r).pos (resOf r), pe.2.1⟩
+  ⟨pe.1, if pe.2.2 then .silent else pumpOutcome x (stOf r).pos (resOf r), pe.2.1⟩
 
 /-- `Binary.marshal(tpm_type=…, buffer=x, command_code=…, parameter_encryption=…, abort_on_error=…)`
 run to completion -/
